@@ -39,7 +39,7 @@ class C02(WrapHarness):
         out.append(dict(base, gen='sym1x', n=4 if q else 5, ind='si', tokens=()))
         out.append(dict(base, gen='sym1x', n=4 if q else 5, ind='ii', tokens=(), bw=False))
         out.append(dict(base, gen='sym1x', n=3 if q else 4, ind='both', le='CRLF', tokens=TOK))
-        out += std_tmpl_spaces(dict(base, ind='none'), q, variants=False)
+        out += std_tmpl_spaces(dict(base, ind='none'), q, variants=False, cind=True)
         out += atmpl_spaces(dict(base, ind='si' if q else 'both'), ['short', 'wide'] if q else ['short', 'wide', 'sentence', 'hyphens'],
                             ALPHA2[:5] if q else ALPHA2)
         out += std_tmpl_spaces(dict(base, ind='both'), q, variants=False)
